@@ -10,10 +10,20 @@ for p in mutants/*.patch; do
     c01_h11_available_when_active.patch) id=C07;;
     c06_tunnel_refusal_not_closed.patch) id=C05;;
     c01_h2_event_misrouted.patch) id="C01 C12";;
+    trio_shield_off.patch) id=C05;;
+    trio_pool_timeout_never.patch|trio_pool_timeout_unmapped.patch|trio_pool_timeout_move_on.patch) id=C16;;
+    trio_semaphore_double_release.patch) id="C18 C12";;
+    real_sync_read_oserror_unmapped.patch|real_trio_broken_unmapped.patch) id=C15;;
+    real_anyio_read_timeout_ignored.patch) id="C15 C16";;
+    real_sync_connect_timeout_dropped.patch|real_tlsintls_read_no_timeout.patch) id=C16;;
+    real_sync_tlsintls_close_noop.patch) id=C06;;
   esac
   timeout 1500 tools/mutant.sh "$p" $id | cut -c1-160
 done
 for d in seeded/*/; do
   id=$(basename "$d" | cut -c1-3)
+  case "$(basename $d)" in
+    C05-trio-pool-timeout-cancel-called) id="C16 C07";;
+  esac
   timeout 1500 tools/mutant.sh "$d/patch.diff" $id | sed "s#MUTANT patch.diff#SEED $(basename $d)#" | cut -c1-200
 done
